@@ -116,7 +116,7 @@ Prove(c, inp, pr, jr) ==
       ci == CallInputs(c, inp, jr, 1)
       w == Wires(c, pr, ci)
       dn == Nodes(n)  dw == Nodes(pw)
-      gp == [k \in 1..L |-> GEval(c, [i \in 1..g.arity |-> LagEval(dw, w[i], dn[k])])]
+      gp == [k \in 1..L |-> GEval(c, [i \in 1..g.arity |-> LagEvalRoots(w[i], dn[k])])]
   IN SubSeq(pr, 1, g.arity) \o gp
 IsWireRoot(c, r) == Pow(r, WireLen(c)) = 1
 Query(c, inp, pf, qr, jr, ns) ==     \* defined when ~IsWireRoot(c, qr[Len(qr)])
@@ -130,7 +130,7 @@ Query(c, inp, pf, qr, jr, ns) ==     \* defined when ~IsWireRoot(c, qr[Len(qr)])
       r == qr[Len(qr)]
       v == IF EvalOutLen(c) > 1 THEN SumSeq([i \in 1..EvalOutLen(c) |-> Mul(qr[i], out[i])]) ELSE out[1]
       w == Wires(c, pf, ci)
-  IN <<v>> \o [i \in 1..g.arity |-> LagEval(dw, w[i], r)] \o << LagEval(gx, gp, r) >>
+  IN <<v>> \o [i \in 1..g.arity |-> LagEvalRoots(w[i], r)] \o << LagEval(gx, gp, r) >>
 Decide(c, vf) ==
   LET g == Gadget(c) IN
   vf[1] = 0 /\ GEval(c, SubSeq(vf, 2, 1 + g.arity)) = vf[2 + g.arity]
